@@ -27,6 +27,8 @@ func cheapConstants() []byte {
 	out = append(out, curve.RISTRETTO_BASEPOINT_COMPRESSED[:]...)
 	out = append(out, curve.X25519_BASEPOINT[:]...)
 	out = append(out, encPt(curve.ED25519_BASEPOINT_POINT)...)
+	rb, _ := curve.RISTRETTO_BASEPOINT_POINT.MarshalBinary()
+	out = append(out, rb...)
 	for _, t := range curve.EIGHT_TORSION {
 		out = append(out, encPt(t)...)
 	}
@@ -140,6 +142,16 @@ func useAsOperands() {
 			tp := tp
 			try("NewExpandedEdwardsPoint(EIGHT_TORSION[i]).SetEdwardsPoint(Q)", func() { curve.NewExpandedEdwardsPoint(tp).SetEdwardsPoint(q) })
 		}
+		try("NewRistrettoPoint().Sum({RISTRETTO_BASEPOINT_POINT, Q, Q})", func() {
+			curve.NewRistrettoPoint().Sum([]*curve.RistrettoPoint{curve.RISTRETTO_BASEPOINT_POINT, rq, rq})
+		})
+		try("NewEdwardsPoint().Sum({ED25519_BASEPOINT_POINT, Q, Q})", func() {
+			curve.NewEdwardsPoint().Sum([]*curve.EdwardsPoint{curve.ED25519_BASEPOINT_POINT, q, q})
+		})
+		try("scalar.New().Sum/Product({BASEPOINT_ORDER, 77})", func() {
+			scalar.New().Sum([]*scalar.Scalar{scalar.BASEPOINT_ORDER, scalar.NewFromUint64(77)})
+			scalar.New().Product([]*scalar.Scalar{scalar.BASEPOINT_ORDER, scalar.NewFromUint64(77)})
+		})
 		try("curve.NewEdwardsPoint().MulBasepoint(curve.ED25519_BASEPOINT_TABLE, ord)", func() { curve.NewEdwardsPoint().MulBasepoint(curve.ED25519_BASEPOINT_TABLE, ord) })
 		try("curve.NewRistrettoPoint().MulBasepoint(curve.RISTRETTO_BASEPOINT_TABLE, ord)", func() { curve.NewRistrettoPoint().MulBasepoint(curve.RISTRETTO_BASEPOINT_TABLE, ord) })
 		try("curve.NewRistrettoPoint().Mul(curve.RISTRETTO_BASEPOINT_POINT, ord)", func() { curve.NewRistrettoPoint().Mul(curve.RISTRETTO_BASEPOINT_POINT, ord) })
